@@ -12,6 +12,8 @@ from .core import (
     is_boollike, to_z3, zbool, _Mut,
 )
 from . import source as src
+from .interp_ext import ExtMixin, ModuleVal, _MISSING
+from .tmpl import Tmpl, Atom, is_strlike
 
 MAX_INLINE_DEPTH = 12
 _parse_cache = {}
@@ -157,7 +159,7 @@ def zimplies(a, b):
     return z3.Implies(a, b)
 
 
-class Interp:
+class Interp(ExtMixin):
     def __init__(self, registry, feas_timeout_ms=300):
         self.reg = registry
         self.obligations = []
@@ -264,6 +266,8 @@ class Interp:
             return len(v.items) > 0
         if isinstance(v, (HRef, SymObj, FuncVal, ClassVal, Closure)):
             return True
+        if isinstance(v, Atom):
+            raise Unsupported(f"truthiness of opaque string {v!r}")
         t = getattr(v, "truth", None)
         if t is not None:
             return t()
@@ -276,6 +280,9 @@ class Interp:
             return fr.locals[name]
         if name in st.ghost:
             return st.ghost[name]
+        ext = getattr(self, "extern_names", {})
+        if name in ext:
+            return ext[name]
         if name in SPEC_BUILTINS:
             return BuiltinVal(name)
         if name in self.reg.spec_funcs and (self.spec_mode or getattr(fr, "spec", False)):
@@ -286,14 +293,11 @@ class Interp:
             if name in m.funcs:
                 return FuncVal(mod, name)
             if name in m.classes:
-                return ClassVal(name)
-            if name in m.assigns:
-                # module-level constant
-                node = m.assigns[name]
-                try:
-                    return ast.literal_eval(node)
-                except Exception:
-                    pass
+                return ClassVal(name, mod)
+            if name in m.assigns or name in m.imports:
+                v = self.lookup_in_module(mod, name)
+                if v is not None:
+                    return v
         if name in self.reg.spec_funcs:
             return FuncVal("<spec>", name)
         if name in self.reg.types:
@@ -529,6 +533,8 @@ class Interp:
             return a == b
         if isinstance(a, ClassVal) and isinstance(b, ClassVal):
             return a.name == b.name
+        if isinstance(a, (ClassVal, BuiltinVal)) and isinstance(b, (ClassVal, BuiltinVal)):
+            return a.name == b.name
         h = getattr(a, "identical", None)
         if h is not None:
             return h(b)
@@ -546,6 +552,10 @@ class Interp:
             return h(a if h.__self__ is b else b) if False else (a.equal(b) if hasattr(a, "equal") else b.equal(a))
         if isinstance(a, HRef) or isinstance(b, HRef):
             return self.identical(a, b)
+        if isinstance(a, (Tmpl, Atom)) or isinstance(b, (Tmpl, Atom)):
+            if a is b:
+                return True
+            raise Unsupported(f"== on template strings {a!r}, {b!r}")
         if isinstance(a, str) or isinstance(b, str):
             if isinstance(a, str) and isinstance(b, str):
                 return a == b
@@ -571,8 +581,12 @@ class Interp:
         if isinstance(a, _Mut) and isinstance(b, _Mut):
             if a.uid == b.uid:
                 return True
+            if isinstance(a, SymObj) and isinstance(b, SymObj):
+                return False  # plain objects / classes compare by identity
         if isinstance(a, ClassVal) and isinstance(b, ClassVal):
             return a.name == b.name
+        if isinstance(a, (SymObj, ClassVal)) and isinstance(b, (SymObj, ClassVal)):
+            return False
         raise Unsupported(f"== on {a!r}, {b!r}")
 
     def contains(self, st, cont, x):
@@ -621,10 +635,17 @@ class Interp:
             if attr in ("items", "keys", "values", "get", "setdefault", "update", "copy"):
                 yield st, BuiltinVal("dict." + attr, o)
                 return
-        if isinstance(o, str):
-            if attr in ("join", "format", "startswith", "endswith", "strip", "split", "replace"):
+        if isinstance(o, (str, Tmpl, Atom)):
+            if attr in ("join", "format", "startswith", "endswith", "strip", "split", "replace", "upper"):
                 yield st, BuiltinVal("str." + attr, o)
                 return
+        if isinstance(o, ClassVal):
+            v = self.class_static_attr(o, attr)
+            if v is _MISSING:
+                self.safety(st, "AttributeError", False, node)
+                raise Unsupported(f"class {o.name} has no attribute {attr}")
+            yield st, v
+            return
         if isinstance(o, Mem):
             raise Unsupported("attribute of byte map")
         h = getattr(o, "getattr", None)
@@ -643,7 +664,7 @@ class Interp:
                 continue
             seen.add(c)
             decl = self.reg.types.get(c)
-            relpath = decl.relpath if decl else None
+            relpath = decl.relpath if decl else getattr(self, "class_home", {}).get(c)
             if relpath:
                 m = src.module(relpath)
                 q = f"{c}.{attr}"
@@ -817,6 +838,9 @@ class Interp:
             if h:
                 yield from h(st, args, kwargs, node)
                 return
+            if c.relpath:
+                yield from self.construct_generic(st, c, args, kwargs, node)
+                return
             raise Unsupported(f"constructor of {c.name}")
         o = st.new_href(c.name)
         found = self.find_method(c.name, "__init__")
@@ -862,8 +886,12 @@ class Interp:
         if f.relpath == "<spec>":
             yield from self.call_spec(st, f, args, kwargs, node)
             return
+        ov = getattr(self, "overrides", {}).get((f.relpath, f.qualname))
+        if ov is not None and not self.spec_mode:
+            yield from ov(self, st, f, args, kwargs, node)
+            return
         con = self.reg.contracts.get((f.relpath, f.qualname))
-        if con is None and f.bound_self is not None:
+        if con is None and f.bound_self is not None and hasattr(f.bound_self, "cls"):
             cls = f.bound_self.cls
             con = self.reg.lookup_method(cls, f.qualname.split(".")[-1])
         if con is not None and not con.inline and not self.spec_mode:
@@ -1091,7 +1119,7 @@ class Interp:
             kn = k.name if isinstance(k, (ClassVal, BuiltinVal)) else None
             if kn == "int" and is_intlike(o) and not is_boollike(o):
                 return True
-            if kn == "str" and isinstance(o, str):
+            if kn == "str" and isinstance(o, (str, Tmpl, Atom)):
                 return True
             if kn == "tuple" and isinstance(o, tuple):
                 return True
@@ -1979,6 +2007,23 @@ class Interp:
         self.n_paths = n_paths
         return self.obligations
 
+    def exec_function(self, con, args, ghost=None):
+        """run the body of the real function of contract `con` from the given argument values (harness mode):
+        yields (state, outcome) per path; obligations raised on the way are collected in self.obligations"""
+        self.contract = con
+        fnode = src.func_node(con.relpath, con.qualname)
+        st = State()
+        st.heap_sorts = self.heap_sorts()
+        for ax in background_axioms():
+            st.assume(ax)
+        fr = Frame(con.qualname, dict(args))
+        fr.module = con.relpath
+        fr.fnode = fnode
+        st.frames.append(fr)
+        st.ghost.update(ghost or {})
+        st.entry = st.snapshot()
+        yield from self.exec_block(st, src.body_of(fnode))
+
     def spec_frame_push(self, st, fr):
         fr._saved_spec = getattr(fr, "spec", False)
         fr.spec = True
@@ -2054,7 +2099,8 @@ SPEC_BUILTINS = {
     "forall", "exists", "implies", "iff", "ite", "forall_int", "forall_live", "align_up", "pow2", "pymod", "byte",
     "slen", "same_storage", "same_obj",
 }
-PY_BUILTINS = {"len", "min", "max", "bool", "int", "range", "enumerate", "zip", "list", "tuple", "isinstance", "sum"}
+PY_BUILTINS = {"len", "min", "max", "bool", "int", "range", "enumerate", "zip", "list", "tuple", "isinstance", "sum",
+               "str", "type", "hasattr", "getattr", "abs", "dict"}
 
 
 def _named_list(lst, prefix):
